@@ -158,7 +158,7 @@ func ApplyForFile(path string, opts *Options) (*Result, error) {
 // Apply runs distiller for the specified io.Reader.
 func ApplyForReader(r io.Reader, opts *Options) (*Result, error) {
 	// Parse input
-	doc, err := dom.Parse(r)
+	doc, err := parseDocument(r)
 	if err != nil {
 		return nil, err
 	}
